@@ -19,7 +19,7 @@ LEVEL_NOTE = ("ASSUMED: urllib.parse.urlsplit decomposes its argument as [scheme
               "survives normalisation). find_urls is proved to hand parse_url a text that meets its preconditions (is_url of the normalised text) and to attach the parts as children inside the node value. NOT proved: normalize_path, normalize_percent_encoding, parse_ip / parse_ipv6 (ASSUMED contracts), find_windows_path (ntpath.normpath)")
 DESIGN_REF = "DESIGN.md 6 (C12), 14"
 TECHNIQUE = "contract-based deductive verification of parse_url / parse_authority / shift_nodes (pyvc: cut points, lemma instances, z3 + cvc5) + bounded run-time contracts for the rest"
-FUNCTIONS = ["multidecoder.node.shift_nodes", "multidecoder.decoders.network.parse_authority", "multidecoder.decoders.network.parse_url", "multidecoder.decoders.network.is_url", "multidecoder.decoders.network.find_urls"]
+FUNCTIONS = ["multidecoder.node.shift_nodes", "multidecoder.decoders.network.parse_authority", "multidecoder.decoders.network.normalize_path", "multidecoder.decoders.network.parse_url", "multidecoder.decoders.network.is_url", "multidecoder.decoders.network.find_urls"]
 RULE = "cases = generated URLs / paths; distinct = distinct inputs on which the real decoder reported a node that was compared with the reference"
 EXPLANATION = "bounded stand-in"
 BOUNDED = [NO.bounded_normalize_path, NO.bounded_url_parts, NO.bounded_windows_path]
